@@ -5,6 +5,16 @@ package main
 // property is anchored in (properties.jsonl: anchors.files).
 
 import (
+	"encoding/json"
+	"fmt"
+	"go/ast"
+	"go/token"
+	"go/types"
+	"os"
+	"path/filepath"
+	"sort"
+	"strings"
+
 	"golang.org/x/tools/go/ssa"
 )
 
@@ -24,4 +34,653 @@ func init() {
 		}
 		rulePanic(p, r, panicSpec{Key: "panic", Entries: entries, Floor: 1, Invariants: tracerInvariants(p)})
 	}
+	experiments["Xunit"] = func(p *Prog, r *Report) { unitMsRule(p, r, "unit", p.RepoFuncs()) }
+	experiments["Xwrap"] = func(p *Prog, r *Report) { errorWrapRule(p, r, "wrap", p.RepoFuncs()) }
+	experiments["Xfmt"] = func(p *Prog, r *Report) {
+		noDataFormatStringRule(p, r, "fmt", func(*ssa.Function) bool { return true })
+	}
+	experiments["Xshadow"] = func(p *Prog, r *Report) {
+		shadowRule(p, r, "shadow", []string{"*", "*/*", "*/*/*", "*/*/*/*", "*/*/*/*/*"})
+	}
+	experiments["Xswap"] = func(p *Prog, r *Report) { swappedArgsRule(p, r, "swap", p.RepoFuncs()) }
+	experiments["Xkeys"] = func(p *Prog, r *Report) {
+		e := &boolEval{key: genericKey}
+		for _, spec := range [][3]string{{pkgCC, "testCaseLibrary", "filterGRPCImplTestCases"}, {pkgRS, "", "checkTLS"}, {pkgRS, "", "timeoutFromContext"}} {
+			if fn := p.Func(spec[0], spec[1], spec[2]); fn != nil {
+				fmt.Println(spec[2], sortedKeysInt(e.keysSeen(fn)))
+			}
+		}
+	}
+	experiments["Xnil"] = func(p *Prog, r *Report) {
+		optionalDerefAudit(p, r, "nil", p.RepoFuncs(), 1)
+	}
+}
+
+// ---------- anchored scopes ----------
+
+// anchoredFuncs: the non-test repository functions (with their closures)
+// declared in the Go files a property is anchored in (properties.jsonl,
+// anchors.files, globs expanded).
+func anchoredFuncs(p *Prog, propID string) []*ssa.Function {
+	pats := anchorFiles(propID)
+	var out []*ssa.Function
+	for _, fn := range p.RepoFuncs() {
+		f := p.Fset.Position(fn.Pos()).Filename
+		if f == "" && fn.Parent() != nil {
+			f = p.Fset.Position(fn.Parent().Pos()).Filename
+		}
+		rel, err := filepath.Rel(p.Root, f)
+		if err != nil || strings.HasSuffix(rel, "_test.go") {
+			continue
+		}
+		for _, pat := range pats {
+			if ok, _ := filepath.Match(pat, rel); ok {
+				out = append(out, fn)
+				break
+			}
+		}
+	}
+	return out
+}
+
+var anchorCache map[string][]string
+
+// extraAnchors: files that carry part of a property's mechanism although the
+// property's anchor list does not name them (each confirmed by reading).
+var extraAnchors = map[string][]string{
+	"C19": {"internal/app/referenceserver/impl.go", "internal/app/referenceserver/raw_response.go", "internal/app/grpcserver/impl.go"}, // the over-limit error reaches the client through the handlers and the first-request pre-read
+	"C18": {"internal/app/referenceserver/impl.go"},                                                                                    // grpcStatusTrailers: the Connect error -> gRPC status form
+	"C16": {"internal/tracer/http2.go"},                                                                                                // the HTTP/2 retry collector completes traces towards the Tracer
+	"C02": {"internal/app/referenceclient/wire_details.go"},                                                                            // wire feedback fails a case whose result matched
+}
+
+func anchorFiles(propID string) []string {
+	if anchorCache == nil {
+		anchorCache = map[string][]string{}
+		b, err := os.ReadFile(filepath.Join(verifDir, "properties.jsonl"))
+		if err == nil {
+			for _, line := range strings.Split(string(b), "\n") {
+				var pr struct {
+					ID      string `json:"id"`
+					Anchors struct {
+						Files []string `json:"files"`
+					} `json:"anchors"`
+				}
+				if json.Unmarshal([]byte(line), &pr) == nil && pr.ID != "" {
+					for _, f := range pr.Anchors.Files {
+						if strings.HasSuffix(f, ".go") {
+							anchorCache[pr.ID] = append(anchorCache[pr.ID], f)
+						}
+					}
+					anchorCache[pr.ID] = append(anchorCache[pr.ID], extraAnchors[pr.ID]...)
+				}
+			}
+		}
+	}
+	return anchorCache[propID]
+}
+
+// ---------- G-UNIT: milliseconds ----------
+
+// unitMsRule: a value read from a field or getter whose name ends in "Ms"
+// (TimeoutMs, ResponseDelayMs, AfterCloseSendMs, …) that is converted to
+// time.Duration is multiplied by time.Millisecond before it is used: every
+// use of the conversion is a multiplication with the constant 1e6.
+func unitMsRule(p *Prog, r *Report, key string, scope []*ssa.Function) {
+	n := 0
+	for _, fn := range scope {
+		eachInstr(fn, func(in ssa.Instruction) {
+			cv, ok := in.(*ssa.Convert)
+			if !ok {
+				return
+			}
+			nt, ok := cv.Type().(*types.Named)
+			if !ok || nt.Obj().Name() != "Duration" || nt.Obj().Pkg() == nil || nt.Obj().Pkg().Path() != "time" {
+				return
+			}
+			src := ""
+			for v := range operandClosure(cv.X) {
+				if f := loadedField(canon(v)); f != nil && strings.HasSuffix(f.Name(), "Ms") {
+					src = f.Name()
+				}
+				if pp, ok := v.(*ssa.Parameter); ok && strings.HasSuffix(pp.Name(), "Ms") {
+					src = pp.Name()
+				}
+			}
+			if src == "" || cv.Referrers() == nil {
+				return
+			}
+			n++
+			r.Sites++
+			r.Func(funcName(fn))
+			bad := ""
+			for _, ref := range *cv.Referrers() {
+				if _, isDbg := ref.(*ssa.DebugRef); isDbg {
+					continue
+				}
+				bo, isBO := ref.(*ssa.BinOp)
+				okMul := false
+				if isBO && bo.Op == token.MUL {
+					other := bo.Y
+					if bo.Y == ssa.Value(cv) {
+						other = bo.X
+					}
+					if k, isK := constInt(other); isK && k == 1000000 {
+						okMul = true
+					}
+				}
+				if !okMul {
+					bad += " used at " + p.InstrPos(ref) + " without `* time.Millisecond`;"
+				}
+			}
+			r.Check(bad == "", fmt.Sprintf("%s.%s#%s@%d", key, shortFn(fn), src, nthInFn(fn, in)), "R-UNIT", p.InstrPos(in), "time.Duration("+src+") * time.Millisecond",
+				"a millisecond count ("+src+") is converted to time.Duration and"+bad+" the value would be interpreted as nanoseconds (a 1500 ms delay becomes 1.5 µs), unlike the sibling sites")
+		})
+	}
+	r.Extra[key+"_conversions"] = n
+}
+
+// nthInFn: ordinal of an instruction among the instructions of the same kind
+// in its function (a stable, position-free discriminator).
+func nthInFn(fn *ssa.Function, target ssa.Instruction) int {
+	n := 0
+	found := 0
+	eachInstr(fn, func(in ssa.Instruction) {
+		if fmt.Sprintf("%T", in) == fmt.Sprintf("%T", target) {
+			n++
+			if in == target {
+				found = n
+			}
+		}
+	})
+	return found
+}
+
+// ---------- G-WRAP: errors keep their identity ----------
+
+// errorWrapRule: every fmt.Errorf in scope that formats an error value uses %w
+// for it: connect-go / the runner classify errors with errors.As / errors.Is,
+// so an error flattened with %v loses its code.
+func errorWrapRule(p *Prog, r *Report, key string, scope []*ssa.Function) {
+	n := 0
+	errT := types.Universe.Lookup("error").Type()
+	for _, fn := range scope {
+		eachInstr(fn, func(in ssa.Instruction) {
+			c, ok := in.(*ssa.Call)
+			if !ok || !isCallToNamed(&c.Call, "fmt", "", "Errorf") {
+				return
+			}
+			format, isS := constString(c.Call.Args[0])
+			if !isS || len(c.Call.Args) < 2 {
+				return
+			}
+			hasErr := false
+			for _, e := range sliceLiteralElems(c.Call.Args[1]) {
+				if mi, ok := e.(*ssa.MakeInterface); ok && types.Implements(mi.X.Type(), errT.Underlying().(*types.Interface)) {
+					hasErr = true
+				} else if types.Identical(e.Type(), errT) {
+					hasErr = true
+				} else if ci, ok := e.(*ssa.ChangeInterface); ok && types.Identical(ci.X.Type(), errT) {
+					hasErr = true
+				}
+			}
+			if !hasErr {
+				return
+			}
+			n++
+			r.Sites++
+			r.Func(funcName(fn))
+			r.Check(strings.Contains(format, "%w"), fmt.Sprintf("%s.%s@%d", key, shortFn(fn), nthInFn(fn, in)), "R-PASSTHRU", p.InstrPos(in), "the error argument is wrapped with %w",
+				fmt.Sprintf("fmt.Errorf(%q, …) formats an error value without %%w: the wrapped error's identity (its connect code, io.EOF, context errors) is lost to errors.As / errors.Is", format))
+		})
+	}
+	r.Extra[key+"_errorf_with_error"] = n
+}
+
+// ---------- G-SHADOW ----------
+
+// errorOnly: rule keys for which only shadowed `error` variables are reported
+// (the attached, per-property form; the calibration run reports all types).
+var errorOnly = map[string]bool{"anchored-shadow": true}
+
+// shadowAllowed: confirmed-by-reading exceptions of shadowRule, file:variable -> reason.
+var shadowAllowed = map[string]string{
+	"internal/app/referenceclient/wire_details.go:tok": "checkNoDuplicateKeys: the loop-local tok is the element's closing token; the outer tok (the opening delimiter) is deliberately what is returned",
+}
+
+// shadowRule: no `:=` / var declaration in a nested block re-declares, with the
+// identical type, a variable of an enclosing block of the same function that is
+// still read after the nested block ends. (The outer variable silently keeps
+// its old value: the classic lost-error bug.)
+func shadowRule(p *Prog, r *Report, key string, relFiles []string) {
+	n := 0
+	usedRows := map[string]bool{}
+	match := func(rel string) bool {
+		for _, pat := range relFiles {
+			if ok, _ := filepath.Match(pat, rel); ok {
+				return true
+			}
+		}
+		return false
+	}
+	var bad []string
+	for _, pkg := range p.Pkgs {
+		for _, file := range pkg.Syntax {
+			fname := p.Fset.Position(file.Pos()).Filename
+			rel, err := filepath.Rel(p.Root, fname)
+			if err != nil || strings.HasSuffix(rel, "_test.go") || !match(rel) {
+				continue
+			}
+			info := pkg.TypesInfo
+			// identifiers that are plain assignment targets
+			writes := map[*ast.Ident]bool{}
+			var assigns []*ast.AssignStmt
+			ast.Inspect(file, func(nd ast.Node) bool {
+				if as, ok := nd.(*ast.AssignStmt); ok && (as.Tok == token.ASSIGN || as.Tok == token.DEFINE) {
+					assigns = append(assigns, as)
+					for _, l := range as.Lhs {
+						if id, ok := l.(*ast.Ident); ok {
+							writes[id] = true
+						}
+					}
+				}
+				return true
+			})
+			ast.Inspect(file, func(nd ast.Node) bool {
+				var idents []*ast.Ident
+				switch x := nd.(type) {
+				case *ast.AssignStmt:
+					if x.Tok != token.DEFINE {
+						return true
+					}
+					for _, l := range x.Lhs {
+						if id, ok := l.(*ast.Ident); ok {
+							idents = append(idents, id)
+						}
+					}
+				case *ast.ValueSpec:
+					idents = append(idents, x.Names...)
+				default:
+					return true
+				}
+				for _, id := range idents {
+					if id.Name == "_" {
+						continue
+					}
+					obj, ok := info.Defs[id].(*types.Var)
+					if !ok || obj.Parent() == nil {
+						continue
+					}
+					n++
+					inner := obj.Parent()
+					// look for an outer variable of the same name and type in an enclosing scope of the same function
+					for sc := inner.Parent(); sc != nil && sc != pkg.Types.Scope() && sc != types.Universe; sc = sc.Parent() {
+						o, ok := sc.Lookup(id.Name).(*types.Var)
+						if !ok || o.Pos() >= id.Pos() || o.IsField() {
+							continue
+						}
+						if !types.Identical(o.Type(), obj.Type()) {
+							break
+						}
+						if !errorOnly[key] || types.Identical(o.Type(), types.Universe.Lookup("error").Type()) {
+							// fallthrough: examine
+						} else {
+							break
+						}
+						// the outer variable is read after the inner scope ends (and inside the outer's scope)
+						// the first mention of the outer variable after the inner scope is a READ
+						// (if it is first assigned again, the shadowing is harmless)
+						var first *ast.Ident
+						for use, uo := range info.Uses {
+							if uo == types.Object(o) && use.Pos() > inner.End() && (first == nil || use.Pos() < first.Pos()) {
+								first = use
+							}
+						}
+						usedAfter := first != nil && !writes[first]
+						// an assignment to the outer variable whose right-hand side contains the inner
+						// declaration (v = func() T { v := …; … }()) takes effect after the inner scope
+						for _, as := range assigns {
+							if as.Pos() < id.Pos() && as.End() >= inner.End() {
+								for _, l := range as.Lhs {
+									if lid, ok := l.(*ast.Ident); ok && (info.Uses[lid] == types.Object(o) || info.Defs[lid] == types.Object(o)) {
+										usedAfter = false
+									}
+								}
+							}
+						}
+						if why, ok := shadowAllowed[rel+":"+id.Name]; ok && usedAfter {
+							usedRows[rel+":"+id.Name] = true
+							_ = why
+							usedAfter = false
+						}
+						// a function-literal boundary between the two scopes makes it a different function: still reported (captured variable)
+						if usedAfter {
+							bad = append(bad, fmt.Sprintf("%s: %q re-declared here shadows the %s declared at %s, which is read again after this block", p.Pos(id.Pos()), id.Name, o.Type().String(), p.Pos(o.Pos())))
+						}
+						break
+					}
+				}
+				return true
+			})
+		}
+	}
+	sort.Strings(bad)
+	r.Sites += n
+	r.Extra[key+"_declarations"] = n
+	r.Check(len(bad) == 0, key, "R-SHADOW", "-", fmt.Sprintf("%d nested declarations, none shadows a same-typed outer variable that is read afterwards", n),
+		"a nested declaration shadows an outer variable that is read after the block, so the outer variable keeps its old value: "+strings.Join(bad, "; "))
+}
+
+// ---------- G-SWAP: swapped same-typed arguments ----------
+
+var antonymPairs = [][2]string{
+	{"client", "server"}, {"request", "response"}, {"req", "resp"}, {"req", "res"}, {"header", "trailer"}, {"headers", "trailers"},
+	{"expected", "actual"}, {"failing", "flaky"}, {"run", "skip"}, {"stdin", "stdout"}, {"in", "out"}, {"send", "recv"},
+	{"send", "receive"}, {"read", "write"}, {"reader", "writer"}, {"min", "max"}, {"first", "last"}, {"start", "end"},
+	{"src", "dst"}, {"source", "dest"}, {"compress", "decompress"}, {"compressor", "decompressor"}, {"encode", "decode"},
+	{"marshal", "unmarshal"}, {"include", "exclude"}, {"before", "after"}, {"log", "err"}, {"stdout", "stderr"},
+}
+
+func nameTokens(s string) map[string]bool {
+	out := map[string]bool{}
+	cur := ""
+	flush := func() {
+		if cur != "" {
+			w := strings.ToLower(cur)
+			out[w] = true
+			if len(w) > 3 && strings.HasSuffix(w, "s") {
+				out[strings.TrimSuffix(w, "s")] = true // headers ~ header
+			} else {
+				out[w+"s"] = true
+			}
+			cur = ""
+		}
+	}
+	rs := []rune(s)
+	for i, c := range rs {
+		switch {
+		case c >= 'a' && c <= 'z' || c >= '0' && c <= '9':
+			cur += string(c)
+		case c >= 'A' && c <= 'Z':
+			// new token at lower→Upper, or at the last upper of an acronym followed by lower
+			if cur != "" && (rs[i-1] >= 'a' && rs[i-1] <= 'z' || (i+1 < len(rs) && rs[i+1] >= 'a' && rs[i+1] <= 'z')) {
+				flush()
+			}
+			cur += string(c)
+		default:
+			flush()
+		}
+	}
+	flush()
+	return out
+}
+
+// swappedArgsRule: at every call of a repository function that has two
+// parameters of identical type whose names differ by an antonym pair
+// (client/server, expected/actual, failing/flaky, run/skip, …), an argument
+// whose own name carries the OTHER parameter's word and not its own is
+// reported: the two same-typed arguments are swapped.
+func swappedArgsRule(p *Prog, r *Report, key string, scope []*ssa.Function) {
+	n := 0
+	anti := map[string][]string{}
+	for _, pr := range antonymPairs {
+		anti[pr[0]] = append(anti[pr[0]], pr[1])
+		anti[pr[1]] = append(anti[pr[1]], pr[0])
+	}
+	for _, fn := range scope {
+		eachInstr(fn, func(in ssa.Instruction) {
+			c := callCommon(in)
+			if c == nil {
+				return
+			}
+			callee := c.StaticCallee()
+			if callee == nil || !p.IsRepoFunc(callee) || len(callee.Params) != len(c.Args) {
+				return
+			}
+			for i, pi := range callee.Params {
+				ti := nameTokens(pi.Name())
+				for j, pj := range callee.Params {
+					if i == j || !types.Identical(pi.Type(), pj.Type()) {
+						continue
+					}
+					tj := nameTokens(pj.Name())
+					for a := range ti {
+						for _, b := range anti[a] {
+							if !tj[b] || ti[b] || tj[a] {
+								continue
+							}
+							// parameters i (word a) and j (word b) form an antonym pair
+							n++
+							if !isSimplePath(c.Args[i]) {
+								continue
+							}
+							at := nameTokens(path(c.Args[i]))
+							if at[b] && !at[a] {
+								r.Sites++
+								r.Fail(fmt.Sprintf("%s.%s→%s.%s", key, shortFn(fn), fnBase(callee), pi.Name()), "R-WIRE", p.InstrPos(in),
+									fmt.Sprintf("in %s the call of %s passes %s for parameter %s although a same-typed parameter %s exists: the two arguments look swapped (%s/%s)", shortFn(fn), fnBase(callee), path(c.Args[i]), pi.Name(), pj.Name(), a, b))
+							}
+						}
+					}
+				}
+			}
+		})
+	}
+	// the same for struct fields: x.fieldA = <something named B> while a same-typed sibling field B exists
+	for _, fn := range scope {
+		eachInstr(fn, func(in ssa.Instruction) {
+			st, ok := in.(*ssa.Store)
+			if !ok {
+				return
+			}
+			fa, ok := st.Addr.(*ssa.FieldAddr)
+			if !ok {
+				return
+			}
+			pt, ok := fa.X.Type().Underlying().(*types.Pointer)
+			if !ok {
+				return
+			}
+			stt, ok := pt.Elem().Underlying().(*types.Struct)
+			if !ok {
+				return
+			}
+			fi := stt.Field(fa.Field)
+			ti := nameTokens(fi.Name())
+			for j := 0; j < stt.NumFields(); j++ {
+				fj := stt.Field(j)
+				if j == fa.Field || !types.Identical(fi.Type(), fj.Type()) {
+					continue
+				}
+				tj := nameTokens(fj.Name())
+				for a := range ti {
+					for _, b := range anti[a] {
+						if !tj[b] || ti[b] || tj[a] {
+							continue
+						}
+						n++
+						if !isSimplePath(st.Val) {
+							continue
+						}
+						at := nameTokens(path(st.Val))
+						if at[b] && !at[a] {
+							r.Sites++
+							r.Fail(fmt.Sprintf("%s.%s.field.%s", key, shortFn(fn), fi.Name()), "R-WIRE", p.InstrPos(in),
+								fmt.Sprintf("in %s field %s is set from %s although a same-typed sibling field %s exists: the two values look swapped (%s/%s)", shortFn(fn), fi.Name(), path(st.Val), fj.Name(), a, b))
+						}
+					}
+				}
+			}
+		})
+	}
+	r.Sites += n
+	r.Extra[key+"_antonym_pairs"] = n
+	if os.Getenv("DBG_SWAP") != "" {
+		fmt.Println("swap pairs", n)
+	}
+	r.OK(key, "R-WIRE", "-", fmt.Sprintf("%d antonym-named same-typed parameter pairs at call sites, no argument carries the other parameter's word", n))
+}
+
+// isSimplePath: a named variable or a field chain rooted at one (no calls, no
+// arithmetic): only such values carry a name worth comparing.
+func isSimplePath(v ssa.Value) bool {
+	for i := 0; i < 8; i++ {
+		v = strip(v)
+		switch x := v.(type) {
+		case *ssa.Parameter, *ssa.FreeVar, *ssa.Global:
+			return true
+		case *ssa.Alloc:
+			return x.Comment != ""
+		case *ssa.Phi:
+			return x.Comment != ""
+		case *ssa.UnOp:
+			if x.Op != token.MUL {
+				return false
+			}
+			v = x.X
+		case *ssa.FieldAddr:
+			v = x.X
+		case *ssa.Field:
+			v = x.X
+		default:
+			return false
+		}
+	}
+	return false
+}
+
+// ---------- the general audits, per property ----------
+
+// crashTable: potential panic sites of the anchored audit that are safe for a
+// reason the prover cannot see; matched by function origin and site text.
+var crashTable = []struct{ fn, site, why string }{
+	{"run", "index:args[0]", "args is os.Args or the literal the runner builds for an in-process peer: never empty"},
+	{"run", "slice:args[1:]", "as above"},
+	{"RunWithTrace", "index:args[0]", "args is os.Args or the literal the runner builds for an in-process peer: never empty"},
+	{"RunWithTrace", "slice:args[1:]", "as above"},
+	{"run", "index:os.Args[0]", "os.Args is never empty"},
+	{"run", "slice:command[:main.positionOf(command, \"----\")]", "positionOf returns -1 or an index of command; -1 is fatal (os.Exit) on the line before"},
+	{"run", "slice:command[(main.positionOf(command, \"----\") + 1):]", "as above"},
+	{"runCommand$1", "index:command[0]", "main refuses an empty client/server command before runCommand is used"},
+	{"runCommand$1", "slice:command[1:]", "as above"},
+	{"ParseServerCert", "index:certPair.Certificate[0]", "tls.X509KeyPair returns at least one certificate on success"},
+	{"grpcStatusTrailers", "index:@", "statProto.Details is make(len(err.Details())) and the index ranges over err.Details(), a pure accessor"},
+	{"serverStream", "index:req.RequestMessages[0]", "Invoke rejects a server-stream request that does not have exactly one message (checked by clients.arity-guard)"},
+	{"serverStream", "index:ccr.RequestMessages[0]", "as above"},
+	{"doUnary", "index:req.RequestMessages[0]", "Invoke rejects Unary / IdempotentUnary requests that do not have exactly one message (clients.arity-guard); the Unimplemented arm does not check — a test case with method Unimplemented and no request message crashes the client (observation, DESIGN.md §5)"},
+	{"doUnary", "index:ccr.RequestMessages[0]", "as above"},
+	{"Encode", "index:j.opts.Marshal(msg)#0[(len(j.opts.Marshal(msg)#0) - 1)]", "evaluated only when len(data) == 0 (the `||` should be `&&`), which protojson.Marshal never produces"},
+}
+
+// nilTable: field loads that are not optional although they look so.
+var nilExemptSites = map[string]string{
+	"referenceclient.maybeWrapContextError#httpErr":       "set by errors.As on the true edge",
+	"referenceclient.examineConnectError#connErr":         "non-nil whenever a key callback fired: examineJSON decodes a JSON object into it before reporting keys (hasDetails implies it)",
+	"referenceclient.examineConnectEndStream#endStream":   "as above (hasError implies a decoded object)",
+	"referenceclient.examineConnectErrorDetail#detail":    "as above for the detail object",
+	"referenceclient.examineConnectErrorDetail$1#*detail": "the callback only runs for keys of a decoded object",
+	"referenceclient.examineConnectErrorDetail$1#detail":  "the callback only runs for keys of a decoded object",
+}
+
+func anchoredGeneralRules(p *Prog, r *Report, propID string) {
+	scope := anchoredFuncs(p, propID)
+	if len(scope) == 0 {
+		r.Undecided("anchored.scope", "A-WHO", "no function found in the files the property is anchored in")
+		return
+	}
+	r.Extra["anchored_functions"] = len(scope)
+	// crash audit of everything declared in the anchored files
+	rulePanic(p, r, panicSpec{Key: "anchored-crash", Only: scope, Floor: 0, Invariants: tracerInvariants(p),
+		TableFn: func(fn *ssa.Function, desc string) (string, bool) {
+			name := fn.Name()
+			if o := fn.Origin(); o != nil {
+				name = o.Name()
+			}
+			for _, row := range crashTable {
+				if row.fn == name && (row.site == desc || strings.HasSuffix(row.site, "@") && strings.HasPrefix(desc, row.site)) {
+					return row.why, true
+				}
+			}
+			return "", false
+		}})
+	// the arity guards the table relies on
+	if propID == "C01" || propID == "C02" {
+		arityGuardRule(p, r)
+	}
+	// optional pointers (generated messages, JSON-decoded structs) outside the runner's validated-at-load cases
+	var nilScope []*ssa.Function
+	for _, fn := range scope {
+		if pkgOfFunc(fn) != ccPath {
+			nilScope = append(nilScope, fn)
+		}
+	}
+	if len(nilScope) > 0 {
+		optionalDerefAuditEx(p, r, "anchored-nil", nilScope, 0, nilExemptSites)
+	}
+	unitMsRule(p, r, "anchored-unit", scope)
+	var wrapScope []*ssa.Function
+	for _, fn := range scope {
+		if pk := pkgOfFunc(fn); pk != ccPath && !strings.HasPrefix(pk, modPath+"/cmd/") {
+			wrapScope = append(wrapScope, fn)
+		}
+	}
+	if len(wrapScope) > 0 {
+		errorWrapRule(p, r, "anchored-wrap", wrapScope)
+	}
+	swappedArgsRule(p, r, "anchored-swap", scope)
+	shadowRule(p, r, "anchored-shadow", anchorFiles(propID))
+	inScope := map[*ssa.Function]bool{}
+	for _, fn := range scope {
+		inScope[fn] = true
+	}
+	noDataFormatStringRule(p, r, "anchored-format", func(fn *ssa.Function) bool { return inScope[fn] })
+}
+
+// arityGuardRule: in both reference clients' Invoke, the calls of unary,
+// idempotentUnary and serverStream are on the len(req.RequestMessages) == 1 edge.
+func arityGuardRule(p *Prog, r *Report) {
+	for _, rel := range []string{pkgRC, "internal/app/grpcclient"} {
+		inv := p.Func(rel, "invoker", "Invoke")
+		if inv == nil {
+			r.Undecided("clients.arity-guard."+filepath.Base(rel), "R-GUARD", "Invoke not found")
+			continue
+		}
+		reqMsgs := p.Field(pkgGen, "ClientCompatRequest", "RequestMessages")
+		n := 0
+		bad := ""
+		eachInstr(inv, func(in ssa.Instruction) {
+			c := callCommon(in)
+			if c == nil || c.StaticCallee() == nil {
+				return
+			}
+			switch c.StaticCallee().Name() {
+			case "unary", "idempotentUnary", "serverStream":
+			default:
+				return
+			}
+			n++
+			r.Sites++
+			if !guardedBy(in, func(a Atom) bool {
+				if a.Op != token.EQL {
+					return false
+				}
+				x, isLen := lenArg(a.X)
+				k, isK := constInt(a.Y)
+				return isLen && isK && k == 1 && loadedField(canon(x)) == reqMsgs
+			}) {
+				bad += " " + c.StaticCallee().Name() + " at " + p.InstrPos(in) + ";"
+			}
+		})
+		r.Check(bad == "" && n >= 2, "clients.arity-guard."+filepath.Base(rel), "R-GUARD", p.Pos(inv.Pos()), "unary / idempotent-unary / server-stream calls are made only with exactly one request message",
+			"Invoke calls a single-request method without having checked len(RequestMessages) == 1:"+bad+" the method indexes RequestMessages[0] and would crash the client")
+	}
+}
+
+func sortedKeysInt(m map[string]int) []string {
+	ks := make([]string, 0, len(m))
+	for k := range m {
+		ks = append(ks, k)
+	}
+	sort.Strings(ks)
+	return ks
 }
